@@ -24,7 +24,9 @@ CLAIMED = {
         "position; the extracted engine lexers additionally decode the implementation's own output on every case. The Json "
         "arm and the text / char / bytes elements of Array values are covered the same way: model = position template around "
         "value_to_string (coq/Model/LitValue.v), and the literal(s) the implementation writes must decode, under the engine "
-        "lexer (arrays: coq/Spec/LitArrayOracle.v), to serde_json's text / to the elements.",
+        "lexer (arrays: coq/Spec/LitArrayOracle.v), to serde_json's text / to the elements; theorems "
+        "C03_json_literal_roundtrip and C03_string_array_roundtrip state it for every Json text and every non-empty "
+        "list of strings.",
    note="Trusted: Coq kernel; the engine lexers in coq/Spec/EngLex.v (written from the MySQL/Postgres/SQLite manuals: default "
         "sql_mode, standard_conforming_strings=on, utf8 connection); extraction, driver, harness, generators. Opaque formatters "
         "(dates, decimals, uuid) are not modelled here; serde_json's text of a Json value is an external formatter too: it is "
